@@ -20,7 +20,7 @@ for rp in sorted(glob.glob(os.path.join(ROOT, "build", "seedres", "C*-*.json")))
         if confirmed:
             os.makedirs(dst, exist_ok=True)
             shutil.copy(src + "/patch.diff", dst + "/patch.diff")
-            shutil.copy(src + "/demo_test.go", dst + "/demo_test.go.txt")  # .txt: must not be compiled as part of /verif
+            shutil.copy(src + "/demo_test.go", dst + "/demo_test.go")
     elif os.path.exists(dst + "/meta.json"):
         meta = json.load(open(dst + "/meta.json"))
     if confirmed and os.path.isdir(dst):
